@@ -259,6 +259,7 @@ func (c *connection) onActiveEvent(activeMsg *ActiveMessage, record map[uint16]*
 	_, err := c.conn.Write(data)
 	verifAt(c, "W.active.written", seq, err)
 	replyMsg := newActiveMessage(seq, activeMsg.Command, data, err)
+	replyMsg.activeMsg = activeMsg
 	if v, ok := c.handles[activeMsg.Command]; ok {
 		replyMsg.Handler = v
 	}
@@ -291,7 +292,7 @@ func (c *connection) onActiveEvent(activeMsg *ActiveMessage, record map[uint16]*
 func (c *connection) completeActive(record map[uint16]*ActiveMessage, msg *Message) {
 	verifAt(c, "W.sel.complete", true, msg)
 	seq := msg.ExtensionFields.PlatformSeq
-	if v, ok := record[seq]; ok {
+	if v, ok := record[seq]; ok && (msg.activeMsg == nil || msg.activeMsg == v) {
 		msg.ExtensionFields.PlatformData = v.ExtensionFields.Data
 		msg.ExtensionFields.PlatformCommand = v.Command
 		msg.ExtensionFields.ActiveSend = true
